@@ -153,6 +153,7 @@ def run(res):
     res.coverage["cases_in_roundtrip_fragment"] = sum(1 for o in ops2 if "IN-RT" in C.op_comment(o))
     hist = stats.get("histogram", {}) if isinstance(stats, dict) else {}
     res.coverage["const_enum_member_classes"] = {k[8:]: v for k, v in sorted(hist.items()) if k.startswith("members:")}
+    res.coverage["object_composition_classes"] = {k[12:]: v for k, v in sorted(hist.items()) if k.startswith("composition:")}
     res.coverage["rule"] = ("40 keywords x strict mode (behavioural table, regenerated into Gen/KeywordTable.lean); generated documents of depth <= 2 over the "
         "fragment (see notes/C11.md) x instances at / around every constant, wrong kinds, null, non-ASCII; const/enum: heterogeneous members of every JSON kind "
         "(null, booleans, 1 / 1.0 / 1e0, negatives, fractions, strings incl. empty and strings spelling other members' JSON text, repeats; arrays/objects in root "
